@@ -11,6 +11,8 @@ var commands = map[string]func([]string){
 	"c02":     cmdC02,
 	"serve":   cmdServe,
 	"life":    cmdLife,
+	"c07":     cmdC07,
+	"c07stress": cmdC07Stress,
 }
 
 func main() {
